@@ -1115,7 +1115,7 @@ theorem lex_join (X : Ora) (O : EOra) : ∀ (defs : List ClassSrc), defs ≠ [] 
     rw [lex_classText X O c (hc c (by simp)) opened, bol_blank, bol_blank, ih]
     simp [prepend_prepend]
 
-theorem starLine_eq : starLine = '#' :: " ********************".toList := by decide
+theorem starLine_eq : starLine = '#' :: chars!" ********************" := by decide
 
 theorem lex_module (X : Ora) (O : EOra) (write : Bool) (defs : List ClassSrc) (main : ClassSrc)
     (hd : ∀ c ∈ defs, classOk O c = true) (hm : classOk O main = true) :
@@ -1152,7 +1152,7 @@ theorem lex_module (X : Ora) (O : EOra) (write : Bool) (defs : List ClassSrc) (m
       simp [prepend, modToks, hcls, classesToks]
     · simp only [if_true, nl3, List.append_assoc, List.cons_append, List.nil_append]
       rw [hj, bol_blank, starLine_eq]
-      have hc := bol_comment X ⟨0, [4]⟩ 0 " ********************".toList
+      have hc := bol_comment X ⟨0, [4]⟩ 0 chars!" ********************"
         (cLF :: cLF :: (classText O main.name main.desc main.schema ++ [cLF])) (by decide)
       simp only [List.cons_append, List.append_assoc] at hc ⊢
       rw [hc, bol_blank, bol_blank, hm']
